@@ -112,6 +112,27 @@ structure EngRes where
   ret : Option EngRet
 deriving Repr, DecidableEq
 
+/-- which case the final `select` of `(*instancePool).Run` takes -/
+inductive PoolRunEv
+  /-- `<-ctx.Done()`: the pool context (child of the engine's) is done -/
+  | ctxDone
+  /-- `err, ok := <-awaitErr`: an error reported by the await loop (`ok`), or the channel closed: everything awaited -/
+  | awaitErr (ok : Bool)
+deriving Repr, DecidableEq
+
+/-- what `(*instancePool).Run` returns -/
+inductive PoolRunRet
+  /-- `ctx.Err()` -/
+  | ctxErr
+  /-- the error the await loop reported -/
+  | reported
+  | nil
+deriving Repr, DecidableEq
+
+/-- the ways out of the `select` of `onErrAwaited` -/
+inductive ErrCase | send | poolCtxDone
+deriving Repr, DecidableEq
+
 end Pandora.Go.C12
 
 namespace Pandora.Model.C12
